@@ -569,7 +569,7 @@ func NewSpecSet() *SpecSet {
 
 var clauseKeywords = map[string]bool{"spec": true, "axiom": true, "ghost": true, "func": true, "requires": true, "ensures": true,
 	"modifies": true, "loop": true, "at": true, "maypanic": true, "inline": true, "trusted": true, "pure": true, "check": true,
-	"let": true, "chanmode": true, "chaninv": true, "defines": true, "maintains": true, "thorough": true, "secret": true, "flows": true, "asset": true, "nosafety": true, "guarded": true, "after": true, "assumed": true, "noverify": true, "ghostparam": true}
+	"let": true, "chanmode": true, "chaninv": true, "defines": true, "maintains": true, "thorough": true, "secret": true, "flows": true, "asset": true, "nosafety": true, "guarded": true, "released": true, "unlocked": true, "after": true, "assumed": true, "noverify": true, "ghostparam": true}
 
 // ReadSpecFile reads //@ lines. pkgPrefix is prepended to `func` keys that are
 // not already qualified (contract files inside a package use short keys).
@@ -669,8 +669,8 @@ func (ss *SpecSet) ReadSpecFile(path, pkgPrefix string) error {
 				}
 			}
 			ss.Secrets[sf.Field] = sf
-		case "guarded":
-			g, err := parseGuarded(rest, pkgPrefix)
+		case "guarded", "released", "unlocked":
+			g, err := parseGuarded(rest, pkgPrefix, kw == "released")
 			if err != nil {
 				fail(rc.line, "%v", err)
 				continue
@@ -869,12 +869,17 @@ func (ss *SpecSet) ReadSpecFile(path, pkgPrefix string) error {
 			case "assumed":
 				// assumed ensures E : a postcondition callers may use but that is NOT proved against the body (an explicit,
 				// listed assumption - e.g. the completeness half of a search whose soundness half is proved)
-				if !strings.HasPrefix(rest, "ensures ") {
-					fail(rc.line, "assumed ensures EXPR")
+				// assumed requires E : an entry condition the body is verified under but that is NOT demanded from callers
+				// (an explicit, listed assumption about input the repository does not control, e.g. user-supplied files)
+				akind := "ensures"
+				if strings.HasPrefix(rest, "requires ") {
+					akind = "requires"
+				} else if !strings.HasPrefix(rest, "ensures ") {
+					fail(rc.line, "assumed ensures|requires EXPR")
 					continue
 				}
-				c := &Clause{Kind: "ensures", File: path, Line: rc.line, Assumed: true}
-				body := parseTags(strings.TrimPrefix(rest, "ensures "), c)
+				c := &Clause{Kind: akind, File: path, Line: rc.line, Assumed: true}
+				body := parseTags(strings.TrimPrefix(rest, akind+" "), c)
 				e, err := ParseExpr(body)
 				if err != nil {
 					fail(rc.line, "%v", err)
